@@ -611,10 +611,12 @@ fn level2(report: &mut Report, tier: Tier) {
 fn uncontrolled(report: &mut Report, tier: Tier) {
     let metric = Metric::Euclidean;
     let dim = 3usize;
-    let rounds = if tier == Tier::Quick { 2 } else { 12 };
+    // every pool size 1..=16 x every tree count of the menu: how the per-tree tasks are dealt to the
+    // threads depends on both numbers (the schedule inside each run stays uncontrolled)
+    let tree_counts: Vec<usize> = if tier == Tier::Quick { vec![1, 2, 3, 5, 7, 8, 10, 13, 16, 20] } else { (1..=20).collect() };
     let mut runs = 0u64;
-    for threads in [1usize, 2, 3, 4, 8, 16] {
-        for round in 0..rounds {
+    for threads in 1usize..=16 {
+        for (round, n_trees) in tree_counts.iter().copied().enumerate() {
             let pool = rayon::ThreadPoolBuilder::new().num_threads(threads).build().unwrap();
             let scratch = Scratch::new("c13u");
             let verdict: Result<(), (String, String)> = pool.install(|| {
@@ -628,7 +630,7 @@ fn uncontrolled(report: &mut Report, tier: Tier) {
                     exec(scratch.db, &mut wtxn, &mut types, &Action::Add { index: 0, id: i as u32, vec: vecf(i) });
                     expect.insert(i as u32);
                 }
-                let opts = BuildOpts { n_trees: Some(8), split_after: Some(2), memory: None, seed: round as u64, cancel_at: None };
+                let opts = BuildOpts { n_trees: Some(n_trees), split_after: Some(2), memory: None, seed: round as u64, cancel_at: None };
                 let (o, _) = exec(scratch.db, &mut wtxn, &mut types, &Action::Build { index: 0, opts: opts.clone() });
                 if !o.is_ok() {
                     return Err(("N/build-failed".into(), o.describe()));
@@ -654,14 +656,14 @@ fn uncontrolled(report: &mut Report, tier: Tier) {
             if let Err((c, m)) = verdict {
                 report.add_violation(Violation {
                     signature: format!("{c}:uncontrolled"),
-                    what: format!("uncontrolled build in a pool of {threads} threads (round {round}): {m}"),
-                    replay: json!({"engine": "uncontrolled", "threads": threads, "round": round}),
+                    what: format!("uncontrolled build of {n_trees} trees in a pool of {threads} threads: {m}"),
+                    replay: json!({"engine": "uncontrolled", "threads": threads, "n_trees": n_trees}),
                 });
                 return;
             }
         }
     }
-    report.cov("supplementary_uncontrolled_builds_sampled", runs);
+    report.cov("pool_size_x_tree_count_builds", runs);
 }
 
 /// Supplementary, sampled: the real `ConcurrentNodeIds::next` hammered by free-running threads
